@@ -166,6 +166,12 @@ def code39Escape : List Nat → Res (List Nat)
 /-- nine element widths of an encoding word: 0 → narrow (1), 1 → wide (2) -/
 def code39Widths (a : Nat) : List Nat := (bitsMSB 9 a).map (fun w => if w then 2 else 1)
 
+/-- `strings.Index(alphabet, string(c))` used as a table index: -1 panics when indexing the encodings -/
+def alphaIndex (A : List Nat) (c : Nat) : Res Nat :=
+  match indexOf? c A with
+  | some i => .ok i
+  | none => .error (.panic "index out of range [-1]")
+
 /-- the symbol characters (alphabet indices) the Code 39 writer draws between the two asterisks -/
 def code39Symbols (T : Tables) (contents : List Nat) : Res (List Nat) := do
   if contents.length > 80 then throw .writer
@@ -175,9 +181,7 @@ def code39Symbols (T : Tables) (contents : List Nat) : Res (List Nat) := do
       let e ← code39Escape contents
       if e.length > 80 then throw .writer
       pure e
-  contents'.mapM (fun c => match indexOf? c T.code39Alphabet with
-    | some i => .ok i
-    | none => .error (.panic "index out of range [-1]"))
+  contents'.mapM (alphaIndex T.code39Alphabet)
 
 def code39Draw (T : Tables) (syms : List Nat) : Res (List Bool) := do
   let star := appendPattern (code39Widths T.code39Asterisk) true
@@ -259,9 +263,7 @@ def code93Escape : List Nat → Res (List Nat)
 def code93Symbols (T : Tables) (contents : List Nat) : Res (List Nat) := do
   let ext ← code93Escape contents
   if ext.length > 80 then throw .writer
-  let vals ← ext.mapM (fun c => match indexOf? c T.code93Alphabet with
-    | some i => .ok i
-    | none => .error (.panic "index out of range [-1]"))
+  let vals ← ext.mapM (alphaIndex T.code93Alphabet)
   let (c, k) := c93Checks vals
   pure (vals ++ [c, k])
 
@@ -528,11 +530,14 @@ def itfPairs : List Nat → List (Nat × Nat)
   | a :: b :: rest => (a, b) :: itfPairs rest
   | _ => []
 
+/-- ten interleaved elements of a digit pair: bars from the first digit, spaces from the second -/
+def itfPairDraw (W : List (List Nat)) (p : Nat × Nat) : Res (List Bool) := do
+  let one ← nth W p.1
+  let two ← nth W p.2
+  pure (appendPattern (interleave one two) true)
+
 def itfDraw (T : Tables) (ds : List Nat) : Res (List Bool) := do
-  let pairs ← (itfPairs ds).mapM (fun p => do
-    let one ← nth T.itfWriter p.1
-    let two ← nth T.itfWriter p.2
-    pure (appendPattern (interleave one two) true))
+  let pairs ← (itfPairs ds).mapM (itfPairDraw T.itfWriter)
   pure (appendPattern T.itfStart true ++ pairs.flatten ++ appendPattern T.itfEnd true)
 
 def itfModules (T : Tables) (contents : List Nat) : Res (List Bool) := do
@@ -689,6 +694,11 @@ def deinterleave : List Nat → List Nat × List Nat
   | a :: b :: rest => let r := deinterleave rest; (a :: r.1, b :: r.2)
   | _ => ([], [])
 
+def itfPairRead (W : List (List Nat)) (c : List Nat) : Res (List Nat) := do
+  let a ← patLookup W (deinterleave c).1
+  let b ← patLookup W (deinterleave c).2
+  pure [a, b]
+
 /-- ITF: start 1111, ten elements per digit pair (narrow 1, wide 3), end 311 -/
 def itfIdeal (T : Tables) (allowed : List Nat) (mods : List Bool) : Res (List Nat) := do
   if mods.head? ≠ some true then throw .notFound
@@ -696,10 +706,7 @@ def itfIdeal (T : Tables) (allowed : List Nat) (mods : List Bool) : Res (List Na
   if rs.length < 7 ∨ rs.take 4 ≠ T.itfStart ∨ rs.drop (rs.length - 3) ≠ T.itfEnd then throw .notFound
   let body := (rs.drop 4).take (rs.length - 7)
   if body.length % 10 ≠ 0 then throw .notFound
-  let ds ← ((chunks 10 body.length body).filter (· ≠ [])).mapM (fun c => do
-    let a ← patLookup T.itfWriter (deinterleave c).1
-    let b ← patLookup T.itfWriter (deinterleave c).2
-    pure [a, b])
+  let ds ← ((chunks 10 body.length body).filter (· ≠ [])).mapM (itfPairRead T.itfWriter)
   itfReadDigits allowed ds.flatten
 
 /-- Codabar: 7 elements + 1 narrow gap per character -/
